@@ -129,14 +129,28 @@ Definition pyval_eqb (a b : pyval) : bool :=
   | PTy x, PTy y => ty_eqb x y
   | _, _ => false
   end.
-(* walk_equals *)
+(* walk_equals: constants other than array values are compared by value; identical nodes are
+   equal; two DISTINCT constant array values whose index sort is neither BV nor Bool and whose
+   elements are not arrays are different (such array values have a unique canonical form and
+   the index sort is infinite) *)
 Definition r_equals (sl sr : term) : option term :=
-  if is_constant sl && is_constant sr then
+  if is_constant sl && is_constant sr && negb (is_array_value sl) && negb (is_array_value sr) then
     match constant_value sl, constant_value sr with
     | Some l, Some r => Some (mk_bool (pyval_eqb l r))
     | _, _ => None
     end
   else if term_eqb sl sr then Some TTrue
+  else if is_constant sl && is_constant sr then
+    match sl with
+    | T (OArrayValue it) (d :: _) =>
+        match it, tc d with
+        | TBV _, _ | TBool, _ => Some (mk_equals sl sr)
+        | _, Some (TArr _ _) => Some (mk_equals sl sr)    (* elements are arrays: no unique constant form *)
+        | _, Some _ => Some TFalse
+        | _, None => None
+        end
+    | _ => None       (* array_value_index_type() / array_value_default() assert an array value *)
+    end
   else Some (mk_equals sl sr).
 (* walk_ite *)
 Definition r_ite (si st se : term) : term :=
@@ -298,29 +312,21 @@ Definition r_times (ora : oracle) (args : list term) : option term :=
                  r <- mk_times na ;; Some (reorder ora OTimes args r)
              end
   end.
-(* walk_pow.  Not modelled (None, although Python computes a float): a non-integer exponent;
-   an Int base b with |b| >= 2 and a negative exponent so large that b ** e underflows to 0.0.
-   For b = 1 or -1 and a negative exponent, Python's float result 1.0 / -1.0 is looked up in the
-   manager's table of Int constants, where it equals the int 1 / -1: the model assumes Int(1)
-   and Int(-1) exist there (the harness creates them in every environment). *)
+(* walk_pow: an Int or Real constant base l with exponent r is folded to Real(Fraction(l) ** r)
+   unless l = 0 and r < 0; that case falls through to the constructor Pow, which raises
+   ZeroDivisionError on constants.  Not modelled (None, although Python computes a float): a
+   non-integer exponent. *)
 Definition r_pow (a e : term) : option term :=
-  match top a with
-  | ORealC n d =>
+  match num_value a with
+  | Some l =>
       match constant_value e with
-      | Some (PNum p) => if fr_is_int p then r <- fr_pow_int (n, d) (fst p) ;; Some (mk_real r) else None
+      | Some (PNum p) =>
+          if negb (fst l =? 0) || fr_leb (0, 1) p then
+            if fr_is_int p then r <- fr_pow_int l (fst p) ;; Some (mk_real r) else None
+          else mk_pow a e
       | _ => None
       end
-  | OIntC l =>
-      match top e with
-      | OIntC r =>
-          if 0 <=? r then Some (mk_int (Z.pow l r))
-          else if l =? 0 then None
-          else if l =? 1 then Some (mk_int 1)
-          else if l =? -1 then Some (mk_int (if Z.even r then 1 else -1))
-          else None
-      | _ => None
-      end
-  | _ => mk_pow a e
+  | None => mk_pow a e
   end.
 (* walk_minus *)
 Definition r_minus (sl sr : term) : option term :=
@@ -342,7 +348,7 @@ Definition r_toreal (a : term) : option term :=
   if is_constant a then
     match top a with OIntC z => Some (mk_real (z, 1)) | _ => None end
   else mk_toreal a.
-(* walk_div.  Int constants are divided through C doubles: math.floor(float(l) / r). *)
+(* walk_div.  Int constants: l // r for r > 0 and -(l // -r) for r < 0 (Python floor division). *)
 Definition r_div (sl sr : term) : option term :=
   if is_constant sl && is_constant sr && negb (is_zero sr) then
     match top sl with
@@ -353,8 +359,8 @@ Definition r_div (sl sr : term) : option term :=
         end
     | OIntC l =>
         match top sr with
-        | OIntC r => if 0 <? r then q <- py_float_div_floor l r ;; Some (mk_int q)
-                     else q <- py_float_div_ceil l r ;; Some (mk_int q)
+        | OIntC r => if 0 <? r then q <- py_floordiv l r ;; Some (mk_int q)
+                     else q <- py_floordiv l (- r) ;; Some (mk_int (- q))
         | _ => None
         end
     | _ => None
@@ -641,7 +647,7 @@ Definition r_str (k : strop) (args : list term) : option term :=
       else mk_strconcat args
   | SCharAt, [s; i] =>
       match str_value s, top i with
-      | Some v, OIntC iv => Some (mk_string (py_slice v (Some iv) (Some (iv + 1))))
+      | Some v, OIntC iv => Some (mk_string (if 0 <=? iv then py_slice v (Some iv) (Some (iv + 1)) else []))
       | _, _ => Some (mk_strop SCharAt [s; i])
       end
   | SContains, [s; t] =>
@@ -651,7 +657,8 @@ Definition r_str (k : strop) (args : list term) : option term :=
       end
   | SIndexOf, [s; t; i] =>
       match str_value s, str_value t, top i with
-      | Some sv, Some tv, OIntC iv => Some (mk_int (py_find sv tv iv))
+      | Some sv, Some tv, OIntC iv =>
+          Some (mk_int (if (0 <=? iv) && (iv <=? zlen sv) then py_find sv tv iv else -1))
       | _, _, _ => Some (mk_strop SIndexOf [s; t; i])
       end
   | SReplace, [s; t1; t2] =>
@@ -661,7 +668,8 @@ Definition r_str (k : strop) (args : list term) : option term :=
       end
   | SSubstr, [s; i; j] =>
       match str_value s, top i, top j with
-      | Some sv, OIntC iv, OIntC jv => Some (mk_string (py_slice sv (Some iv) (Some (iv + jv))))
+      | Some sv, OIntC iv, OIntC jv =>
+          Some (mk_string (if (0 <=? iv) && (0 <? jv) then py_slice sv (Some iv) (Some (iv + jv)) else []))
       | _, _, _ => Some (mk_strop SSubstr [s; i; j])
       end
   | SPrefixOf, [s; t] =>
@@ -676,13 +684,21 @@ Definition r_str (k : strop) (args : list term) : option term :=
       end
   | SToInt, [s] =>
       match str_value s with
-      | Some sv => Some (mk_int (match py_int_of_str sv with Some v => v | None => -1 end))
+      | Some sv =>
+          if (zlen sv =? 0) || negb (forallb is_digit sv) then Some (mk_int (-1))
+          else match py_int_of_str sv with
+               | Some v => Some (mk_int v)
+               | None => Some (mk_strop SToInt [s])     (* more than 4300 digits: left unfolded *)
+               end
       | None => Some (mk_strop SToInt [s])
       end
   | SFromInt, [i] =>
       match top i with
       | OIntC iv => if iv <? 0 then Some (mk_string [])
-                    else ds <- py_str_of_int iv ;; Some (mk_string ds)
+                    else match py_str_of_int iv with
+                         | Some ds => Some (mk_string ds)
+                         | None => Some (mk_strop SFromInt [i])   (* more than 4300 digits: left unfolded *)
+                         end
       | _ => Some (mk_strop SFromInt [i])
       end
   | _, _ => None
